@@ -92,7 +92,7 @@ func ch0(s string) string {
 func one() []model.Frac { return []model.Frac{{Num: 1, Den: 1}} }
 
 func checkC01(c *core.Ctx) {
-	c.Rule("random instance documents (1..12 instances quick, 1..40 thorough; degrees 1..15 in every quality and both spellings of diminished, all 46 dictionary keys, random basses, key changes anywhere, with/without --key, stdin/FILE, stdout/-o, three YAML syntaxes) plus the product sweep key x degree x symbol (sampled in quick, complete in thorough), key x degree x bass, and every placement of key changes in short pieces; " +
+	c.Rule("random instance documents (1..12 instances quick, 1..40 thorough; degrees 1..15 in every quality and both spellings of diminished, all 46 dictionary keys, random basses, key changes anywhere, with/without --key, stdin/FILE, stdout/-o, three YAML syntaxes) plus the product sweep key x degree x symbol (sampled in quick, complete in thorough), key x degree x bass, every placement of key changes in short pieces, and user dictionaries (--chord/--attr inheritance forests split over files in any order, symbols taken over from built-ins, used by name and display next to built-ins); numbers of the documents sometimes written with leading zeros; " +
 		"each chord's group of note-ons (single track) must equal, as a multiset, 60 + tonic + interval sizes computed by the independent calculator; non-trivial = chord with >= 4 notes not being I in C; distinct by (key in force, degree, symbol, bass)")
 	c.Assume("theory.Size, theory.ChordTable (conventional chord meanings), theory.Key.TonicOffset", "smfdec", "generated documents keep every pitch inside 0..127")
 
